@@ -59,9 +59,19 @@ fixed("F23", "C01", "history-dependent", {"cyclic": True}, "aa0b22a",
       "HashComputer.compute set 'has_loop' instead of 'has_loops': identifiers computed inside a cycle were cached as context free, so for sealed cyclic configurations a node's identifier depended on the order of earlier identifier requests")
 fixed("F24", "C19", "cli-exception", {"exc": "JSONDecodeError"}, "920bb44",
       "scheduler killed while prepare() was writing params.json left a truncated file: every job command with tags/filter stopped with JSONDecodeError")
+fixed("F25", "C08", "capacity-exceeded-running", {"what": "running"}, "9a2f4c9",
+      "token files were named after the job only: with several schedulers running the same job under one token directory a late release by one scheduler deleted the file of the current holder, the directory showed free capacity and another job started (3 held of 2)")
 open_("K01", "C20", "repaired-job-relaunched", {"kind": "dep-root"},
       "after `deprecated list --fix [--cleanup]`, resubmitting a task whose own class was deprecated under another class name launches it again: the linked/moved folder keeps the marker, script and pid files named after the former class (olddleaf.done), the new job looks for <new name>.done",
       "repair is not small: fix_deprecated would have to rename or alias every per-job file (script, markers, pid, lock, logs) of the former task name, in link mode without touching the old folder; recorded instead")
+
+open_("K02", "C19", "relaunched-job-removed", {"cmd": "jobs-clean"},
+      "`jobs clean --perform` reads a job's state, and removes its folder a few statements later without holding the job lock: a failed job relaunched by a scheduler in between (its markers are removed at launch) is deleted while it runs",
+      "closing the window needs the cleaning command to take the job's run lock (whose path depends on the main identifier, known only from the job script or the loaded configuration) and the scheduler to honour it: a design change, not a small patch; a job that was already running when the command started is still reported")
+
+open_("K03", "C19", "indexed-job-removed", {"experiment_running": True, "indexed_when_command_started": False},
+      "`orphans --clean` reads the experiment indexes, then lists the job folders: a job that a running experiment links after the indexes were read (e.g. an old, so far unindexed job submitted again) is taken for an orphan and deleted",
+      "inherent check-then-act race of a lock-free cleaning command; closing it needs the command to exclude running experiments (experiment locks) or the scheduler to re-validate: not a small patch. Removal of a job that was already indexed when the command started is still reported")
 
 here = os.path.dirname(os.path.abspath(__file__))
 with open(os.path.join(here, "known_findings.json"), "w") as f:
